@@ -18,6 +18,7 @@ import (
 	"os"
 	"path/filepath"
 	"strings"
+	"time"
 
 	"github.com/sassoftware/relic/v8/cmdline/shared"
 	"github.com/sassoftware/relic/v8/config"
@@ -87,7 +88,7 @@ func (f *fakeTSA) newSignEnv(dir string) (*signEnv, error) {
 	key("k2", "    timestamper: n2\n")
 	key("k3", "    timestamper: n3\n")
 	key("knone", "")
-	fmt.Fprintf(&b, "timestamp:\n  timeout: 1\n  urls:\n")
+	fmt.Fprintf(&b, "timestamp:\n  timeout: 2\n  urls:\n")
 	for i := 0; i < 3; i++ {
 		fmt.Fprintf(&b, "    - %s/c/sd/%d\n", f.srv.URL, i)
 	}
@@ -184,7 +185,7 @@ func (e *signEnv) run(cs *signCase) {
 	seq := cs.Seq
 	var tc *tsaCase
 	if tsaKey != "" {
-		tc = &tsaCase{style: cs.Style, seq: seq, reqOK: true, sent: map[int][]byte{}, encdigFree: true}
+		tc = &tsaCase{style: cs.Style, seq: seq, reqOK: true, sent: map[int][]byte{}, encdigFree: true, timeout: 2 * time.Second}
 		e.f.cases.Store(tsaKey, tc)
 		defer e.f.cases.Delete(tsaKey)
 	}
@@ -207,7 +208,17 @@ func (e *signEnv) run(cs *signCase) {
 			}
 		}()
 		err := e.signFile(mod, keyName, flags, in, out)
-		for try := 0; err != nil && strings.HasPrefix(err.Error(), "apply:") && try < 3; try++ {
+		slowNow := func() bool {
+			if tc == nil {
+				return false
+			}
+			tc.mu.Lock()
+			defer tc.mu.Unlock()
+			s := tc.slow
+			tc.slow = false
+			return s
+		}
+		for try := 0; (slowNow() || (err != nil && strings.HasPrefix(err.Error(), "apply:"))) && try < 3; try++ {
 			// unrelated to timestamps: the dmg transformer's reader goroutine can still be reading the input file
 			// when Apply starts on the same descriptor (intermittent "apply: EOF"); repeat the whole operation
 			cs.Retried++
